@@ -316,8 +316,76 @@ fn crafted_case(sub: &str, id: u64, r: &mut Report) {
     }
 }
 
+/// snapshots with a wrong shape (arrays too long / too short, truncated or extended
+/// byte images, wrong element types): deserialization must answer with an error,
+/// never panic or index out of bounds
+fn malformed_case(sub: &str, id: u64, r: &mut Report) {
+    let mut p = Prng::new(id);
+    fn mutate(v: &mut Value, p: &mut Prng, depth: u32) {
+        match v {
+            Value::Array(a) => {
+                match p.below(6) {
+                    0 => { let extra = p.range(1, 3); for _ in 0..extra { a.push(json!(p.u32())); } }
+                    1 => { let k = p.range(1, 3) as usize; let n = a.len().saturating_sub(k); a.truncate(n); }
+                    2 => { if !a.is_empty() { let i = p.below(a.len() as u64) as usize; a[i] = json!("x"); } }
+                    3 => { if !a.is_empty() { let i = p.below(a.len() as u64) as usize; a[i] = json!(-1); } }
+                    4 => { a.clear(); }
+                    _ => { let n = a.len(); for _ in 0..n { a.push(json!(0)); } }
+                }
+            }
+            Value::Object(o) => {
+                let keys: Vec<String> = o.keys().cloned().collect();
+                if keys.is_empty() { return; }
+                let k = &keys[p.below(keys.len() as u64) as usize];
+                if depth < 3 && p.chance(2, 3) {
+                    mutate(o.get_mut(k).unwrap(), p, depth + 1);
+                } else if p.chance(1, 2) {
+                    o.remove(k);
+                } else {
+                    o.insert(k.clone(), json!(u64::MAX));
+                }
+            }
+            other => { *other = if p.chance(1, 2) { json!([1, 2, 3]) } else { json!(18446744073709551615u64) }; }
+        }
+    }
+    macro_rules! attack {
+        ($t:ty, $make:expr) => {{
+            let g: $t = $make;
+            let mut v = serde_json::to_value(&g).unwrap();
+            mutate(&mut v, &mut p, 0);
+            let text = v.to_string();
+            let res = guarded(|| serde_json::from_str::<$t>(&text).is_ok());
+            r.eval();
+            if let Err(c) = res {
+                return report_panic(&c, "deserialize(json)", json!({"type": stringify!($t), "json_prefix": text.chars().take(200).collect::<String>()}), sub, id, r);
+            }
+            let mut b = bincode::serialize(&g).unwrap();
+            match p.below(3) { 0 => { let n = b.len().saturating_sub(p.range(1, 9) as usize); b.truncate(n); } 1 => { b.extend(p.bytes(9)); } _ => { let i = p.below(b.len() as u64) as usize; b[i] ^= 0xff; } }
+            let res = guarded(|| bincode::deserialize::<$t>(&b).map(|mut g| { g.next_u32(); g.next_u64(); let mut x = [0u8; 5]; g.fill_bytes(&mut x); }).is_ok());
+            r.eval();
+            if let Err(c) = res {
+                return report_panic(&c, "deserialize(bincode)+use", json!({"type": stringify!($t), "image_len": b.len()}), sub, id, r);
+            }
+        }};
+    }
+    let seed32: [u8; 32] = p.bytes(32).try_into().unwrap();
+    match p.below(8) {
+        0 => attack!(rand_isaac::IsaacRng, rand_isaac::IsaacRng::from_seed(seed32)),
+        1 => attack!(rand_isaac::Isaac64Rng, rand_isaac::Isaac64Rng::from_seed(seed32)),
+        2 => attack!(rand_core::block::BlockRng<rand_isaac::isaac::IsaacCore>, rand_core::block::BlockRng::new(rand_isaac::isaac::IsaacCore::from_seed(seed32))),
+        3 => attack!(rand_core::block::BlockRng64<rand_isaac::isaac64::Isaac64Core>, rand_core::block::BlockRng64::new(rand_isaac::isaac64::Isaac64Core::from_seed(seed32))),
+        4 => attack!(rand_xorshift::XorShiftRng, rand_xorshift::XorShiftRng::from_seed(seed32[..16].try_into().unwrap())),
+        5 => attack!(rand_xoshiro::Xoshiro256PlusPlus, rand_xoshiro::Xoshiro256PlusPlus::from_seed(seed32)),
+        6 => attack!(rand_xoshiro::Xoroshiro64Star, rand_xoshiro::Xoroshiro64Star::from_seed(seed32[..8].try_into().unwrap())),
+        _ => attack!(rand_xoshiro::Xoshiro512StarStar, rand_xoshiro::Xoshiro512StarStar::seed_from_u64(p.u64())),
+    }
+    r.cov("malformed_snapshots");
+    r.distinct(hkey(&[&"malformed", &id]));
+}
+
 fn case(sub: &str, id: u64, explicit: Option<&Value>, r: &mut Report) {
     match sub {
+        "malformed" => malformed_case(sub, id, r),
         "crafted" => crafted_case(sub, id, r),
         "real_clock" => real_clock_case(sub, id, r),
         "jitter" => jitter_case(sub, id, explicit, r),
@@ -343,6 +411,7 @@ pub fn run(ctx: &Ctx, only: Option<&Only>) -> Report {
     total.merge(drive(ctx, "jitter_edges", 8_000, secs * 0.2, |id, r| case("jitter_edges", id, None, r)));
     total.merge(drive(ctx, "real_clock", 48, 0.0, |id, r| case("real_clock", id, None, r)));
     total.merge(drive(ctx, "crafted", 2_000, 0.0, |id, r| case("crafted", id, None, r)));
+    total.merge(drive(ctx, "malformed", 4_000, 0.0, |id, r| case("malformed", id, None, r)));
     if ctx.scale >= 1.0 {
         for n in TYPE_NAMES {
             total.floor(&format!("type:{}", n), 50);
